@@ -493,9 +493,11 @@ def check_property(pid, tier='quick', seed=0):
     if os.environ.get('VERIF_NO_BOUNDED') != '1':
         for h in want:
             d = cexmod.run_harness(h)
-            bounded.append(dict(harness=h, bound=d.get('bound'), cases=d.get('cases'), verdict=d.get('status'), counterexample=d.get('counterexample'), cmd=d.get('cmd'), note=d.get('note')))
+            bounded.append(dict(harness=h, bound=d.get('bound'), cases=d.get('cases'), witnesses=d.get('witnesses'), verdict=d.get('status'), counterexample=d.get('counterexample'), cmd=d.get('cmd'), note=d.get('note')))
             if d.get('status') == 'counterexample' and bounded_cex is None:
                 bounded_cex = d
+            if d.get('status') == 'unavailable':
+                undecided.append('bounded stand-in %s did not run or ran vacuously: %s' % (h, (d.get('note') or '')[-300:]))
             for kfj in d.get('known', []):
                 listed = [k for k in kf.get('findings', []) if k.get('id') == kfj.get('known_finding') and pid in k.get('properties', [])]
                 if listed:
